@@ -1,4 +1,4 @@
-import Driver.Util
+import Driver.Loop
 import Driver.C20
 import Driver.C19
 import Driver.Streams
@@ -20,30 +20,4 @@ open Lean Driver
 def allHandlers : List (String × Handler) :=
   Driver.C04.handlers ++ Driver.Shell.handlers ++ Driver.C20.handlers ++ Driver.C19.handlers ++ Driver.Streams.handlers ++ Driver.Proto.handlers ++ Driver.C17.handlers ++ Driver.Utils.handlers ++ Driver.C14.handlers ++ Driver.C11.handlers ++ Driver.Conn.handlers ++ Driver.C18.handlers ++ Driver.H2Send.handlers
 
-def handleLine (line : String) : Json :=
-  match Json.parse line with
-  | .error e => Json.mkObj [("error", Json.str s!"parse: {e}")]
-  | .ok j =>
-    match j.getObjValAs? String "cmd" with
-    | .error e => Json.mkObj [("error", Json.str e)]
-    | .ok cmd =>
-      match allHandlers.lookup cmd with
-      | none => Json.mkObj [("error", Json.str s!"unknown cmd {cmd}")]
-      | some h =>
-        match h j with
-        | .ok r => Json.mkObj [("ok", r)]
-        | .error e => Json.mkObj [("error", Json.str e)]
-
-partial def loop (hin : IO.FS.Stream) (hout : IO.FS.Stream) : IO Unit := do
-  let line ← hin.getLine
-  if line.isEmpty then return ()
-  let l := line.trimAsciiEnd.toString
-  if l.isEmpty then loop hin hout else
-  hout.putStrLn (handleLine l).compress
-  loop hin hout
-
-def main : IO Unit := do
-  let hin ← IO.getStdin
-  let hout ← IO.getStdout
-  loop hin hout
-  hout.flush
+def main : IO Unit := Driver.runMain allHandlers
